@@ -18,6 +18,7 @@ The FULL statement (no carve-out, no side conditions) is false of the current so
         rewrite hdr ts = unmask (flat (specMap hdr q))
 
 with one refutation per excluded class (`C16_*_witness`, all by kernel evaluation).
+The transform-cache key clause is proved at FULL strength (`C16_cache_key`, true since /repo 12df811).
 The step from "exact substitution" to "same rows as DuckDB with views" is the HYPOTHESIS
 `DuckCompositional` of `C16_same_rows` (never an axiom); the harness exercises it on the real DuckDB and
 finds two classes where it fails for Arc's replacement text (implicit table alias, name case).
@@ -248,15 +249,7 @@ example : let pre : List Tok := [.w (S "SELECT"), sp, .w (S "rid"), sp]
     shortCircuit ts = false ∧ fastEligible ts = true ∧ (∀ t ∈ pre, endsWith (lower t.text) "from".toList = false) := by decide
 
 -- ================================================================ transform cache key
-/-
-    theorem C16_cache_key_full (h₁ s₁ h₂ s₂) : cacheKey h₁ s₁ = cacheKey h₂ s₂ → h₁ = h₂ ∧ s₁ = s₂      -- FALSE
--/
-/-- two different requests share one cache entry: header `prod` + `S`, and no header + `prod:S`. -/
-theorem C16_cache_key_witness :
-    cacheKey (S "prod") (S "SELECT 1 FROM cpu") = cacheKey [] (S "prod:SELECT 1 FROM cpu") ∧
-      (S "prod", S "SELECT 1 FROM cpu") ≠ (([] : Str), S "prod:SELECT 1 FROM cpu") := by decide
-
-theorem split_colon (a b s t : Str) (ha : ':' ∉ a) (hb : ':' ∉ b) (h : a ++ ':' :: s = b ++ ':' :: t) :
+theorem split_sep (c : Char) (a b s t : Str) (ha : c ∉ a) (hb : c ∉ b) (h : a ++ c :: s = b ++ c :: t) :
     a = b ∧ s = t := by
   induction a generalizing b with
   | nil =>
@@ -271,30 +264,44 @@ theorem split_colon (a b s t : Str) (ha : ':' ∉ a) (hb : ':' ∉ b) (h : a ++ 
       have := ih b (by simp_all) (by simp_all) h.2
       exact ⟨by simp [h.1, this.1], this.2⟩
 
-/-- the key determines (sql, header) among requests that all carry a header, and among those that carry
-none; headers are valid identifiers (validIdentifierPattern has no `:`). -/
-theorem C16_cache_key_partial (h₁ s₁ h₂ s₂ : Str) (v₁ : ':' ∉ h₁) (v₂ : ':' ∉ h₂)
-    (same : h₁.isEmpty = h₂.isEmpty) (hk : cacheKey h₁ s₁ = cacheKey h₂ s₂) : h₁ = h₂ ∧ s₁ = s₂ := by
+/-- what the request gate lets through as x-arc-database: no header, or validIdentifierPattern -/
+def hdrOK (h : Str) : Bool := h.isEmpty || validIdent h
+
+theorem hdrOK_noNul (h : Str) (ok : hdrOK h = true) : '\x00' ∉ h := by
+  intro hmem
+  cases h with
+  | nil => simp at hmem
+  | cons c rest =>
+    simp only [hdrOK, List.isEmpty_cons, Bool.false_or, validIdent, Bool.and_eq_true, List.all_eq_true] at ok
+    obtain ⟨⟨hc, hr⟩, _⟩ := ok
+    simp only [List.mem_cons] at hmem
+    rcases hmem with rfl | hm
+    · revert hc; decide
+    · have := hr _ hm
+      revert this; decide
+
+/-- FULL (true since /repo 12df811, key = headerDB + NUL + sql): the transform-cache key determines
+(header, sql) for every pair of requests the gate accepts — any SQL text (NUL bytes included), any
+accepted header (absent, or matching validIdentifierPattern, hence NUL free). -/
+theorem C16_cache_key (h₁ s₁ h₂ s₂ : Str) (v₁ : hdrOK h₁ = true) (v₂ : hdrOK h₂ = true)
+    (hk : cacheKey h₁ s₁ = cacheKey h₂ s₂) : h₁ = h₂ ∧ s₁ = s₂ := by
   unfold cacheKey at hk
-  cases e₁ : h₁.isEmpty with
-  | false =>
-    have e₂ : h₂.isEmpty = false := by rw [← same, e₁]
-    rw [e₁, e₂] at hk
-    simp only [Bool.false_eq_true, if_false, List.append_assoc, List.cons_append, List.nil_append] at hk
-    exact split_colon h₁ h₂ s₁ s₂ v₁ v₂ hk
-  | true =>
-    have e₂ : h₂.isEmpty = true := by rw [← same, e₁]
-    rw [e₁, e₂] at hk
-    simp only [if_true] at hk
-    rw [List.isEmpty_iff] at e₁ e₂
-    exact ⟨by rw [e₁, e₂], hk⟩
+  simp only [List.append_assoc, List.cons_append, List.nil_append] at hk
+  exact split_sep '\x00' h₁ h₂ s₁ s₂ (hdrOK_noNul h₁ v₁) (hdrOK_noNul h₂ v₂) hk
 
-/-- exact description of the remaining collisions -/
-theorem C16_cache_key_mixed (h s s' : Str) (hne : h.isEmpty = false) :
-    cacheKey h s = cacheKey [] s' ↔ s' = h ++ ':' :: s := by
-  simp [cacheKey, hne, eq_comm]
+/-- the hypothesis on headers is needed: a header containing NUL could collide (the gate rejects it) -/
+theorem C16_cache_key_needs_header_gate :
+    cacheKey ['a', '\x00', 'b'] (S "q") = cacheKey ['a'] ('b' :: '\x00' :: S "q") := by decide
 
-example : ':' ∉ S "prod" ∧ cacheKey (S "prod") (S "q") ≠ cacheKey (S "default") (S "q") := by decide
+example : hdrOK [] = true ∧ hdrOK (S "prod") = true ∧ hdrOK (S "my-db_2") = true ∧
+    cacheKey (S "prod") (S "SELECT 1 FROM cpu") ≠ cacheKey [] (S "prod:SELECT 1 FROM cpu") := by decide
+
+/-- record of the defect fixed by 12df811: the previous construction (`sql`, or `headerDB + ":" + sql`)
+let two different requests share one entry. -/
+def cacheKeyOld (hdr : Str) (sql : Str) : Str := if hdr.isEmpty then sql else hdr ++ [':'] ++ sql
+theorem C16_cache_key_old_witness :
+    cacheKeyOld (S "prod") (S "SELECT 1 FROM cpu") = cacheKeyOld [] (S "prod:SELECT 1 FROM cpu") ∧
+      (S "prod", S "SELECT 1 FROM cpu") ≠ (([] : Str), S "prod:SELECT 1 FROM cpu") := by decide
 
 -- ================================================================ tie to the current source
 set_option maxRecDepth 8000 in
@@ -310,7 +317,8 @@ theorem C16_facts_tied :
     Arc.Generated.C16.fromKeywordFunctions = ["extract", "substring", "trim", "overlay"] ∧
     Arc.Generated.C16.sentinel.toList = sentinel ∧
     Arc.Generated.C16.readParquetOptions = "union_by_name=true" ∧
-    Arc.Generated.C16.cacheKeySep = ":" ∧
+    Arc.Generated.C16.cacheKeySep.toList = ['\x00'] ∧
+    Arc.Generated.C16.cacheKeyShape = "headerDB+sep+sql" ∧
     Arc.Generated.C16.shortCircuitLits = ["read_parquet", "from", "join"] ∧
     Arc.Generated.C16.singleTableLits = ["from ", " join ", " \t\n", "from "] ∧
     Arc.Generated.C16.dotOrCallTrim = " \t" ∧
